@@ -115,6 +115,10 @@ def main():
         "engines": [
             {"name": "sm9mc", "path": "/verif/mc/checks", "serves_properties": [c["property_id"] for c in checks],
              "kind_free_text": "one binary; grid = bounded-exhaustive product exploration, bfs = explicit-state breadth-first search, both executing the real sm9_core code under catch_unwind and a non-termination watchdog"},
+            {"name": "stateright-crosscheck", "path": "/verif/mc/checks/src/sr.rs", "serves_properties": ["C16"],
+             "kind_free_text": "the C16 G1 register machine explored a second time by stateright 0.31's BFS checker; unique-state counts of the two explorers must agree"},
+            {"name": "py-xcheck", "path": "/verif/py/xcheck.py", "serves_properties": [c["property_id"] for c in checks],
+             "kind_free_text": "independent python re-computation of a dump of reference-model results (field ops, F12, curve multiples, pairings); run by setup_cmd"},
             {"name": "refmodel", "path": "/verif/mc/refmodel", "serves_properties": [c["property_id"] for c in checks],
              "kind_free_text": "independent reference model (BigUint, flat F_q[w]/(w^12+2), affine curves, textbook R-ate pairing), self-tested against the SM9 standard's published vectors at every start"},
         ],
